@@ -7,7 +7,7 @@ Model of the two property-layer implementations of mesa (property C11, C18-layer
 * `mesa/space.py` (`PropertyLayer`, `_PropertyGrid`, and the `_empty_mask` writes of
   `SingleGrid` / `MultiGrid` `place_agent` / `remove_agent` / `move_agent`).
 
-numpy arrays are objects with identity: the model keeps a small heap `ArrId → Arr`; a layer
+numpy arrays are objects with identity: the model keeps a small heap `ArrId → Arr` (array ids and layer ids are plain `Nat`s); a layer
 *points* to its array.  `set_cells` (`np.copyto`) writes in place, `modify_cells`
 (`self.data = np.where(...)`) allocates a new array and re-points the layer, so a reference
 to `layer.data` taken earlier (a *handle*) goes stale exactly when the code's does.  A cell
@@ -26,8 +26,6 @@ namespace Mesa.Layers
 
 abbrev Coord := List Nat
 abbrev Arr := Coord → Int
-abbrev ArrId := Nat
-abbrev LayerId := Nat
 
 /-- `new` = `mesa.discrete_space` grids; `single` / `multi` = legacy `SingleGrid` / `MultiGrid` -/
 inductive Impl where | new | single | multi
@@ -51,7 +49,7 @@ def Arr.set (a : Arr) (c : Coord) (v : Int) : Arr := fun c' => if c' = c then v 
 structure Layer where
   name : String
   dims : List Nat
-  data : ArrId
+  data : Nat
 
 inductive Why where | dims | exists | clash | ufunc | mode | empty
 deriving Repr, DecidableEq
@@ -93,14 +91,14 @@ structure State where
   dims : List Nat
   /-- `new` only: cell capacity, 0 = unbounded (`None` and 0 are both falsy in `add_agent`) -/
   cap : Nat
-  heap : ArrId → Arr
-  next : ArrId
-  layers : LayerId → Layer
+  heap : Nat → Arr
+  next : Nat
+  layers : Nat → Layer
   nLayers : Nat
   /-- the grid's `_mesa_property_layers` / `properties` dict: name ↦ layer object -/
-  attached : List (String × LayerId)
+  attached : List (String × Nat)
   /-- references to `layer.data` held by the user: handle ↦ (array, its shape) -/
-  handles : List (Nat × (ArrId × List Nat))
+  handles : List (Nat × (Nat × List Nat))
   /-- placed agents (insertion order) -/
   agents : List (Nat × Coord)
   /-- `new` only: instance-dict attributes of cells (written when no descriptor of that name exists) -/
@@ -120,10 +118,10 @@ def init (impl : Impl) (dims : List Nat) (cap : Nat) : State :=
     attached := if impl = .new then [("empty", 0)] else [],
     handles := [], agents := [], inst := [], masks := [] }
 
-def State.layer? (s : State) (lid : LayerId) : Option Layer :=
+def State.layer? (s : State) (lid : Nat) : Option Layer :=
   if lid < s.nLayers then some (s.layers lid) else none
 
-def State.named? (s : State) (name : String) : Option LayerId := s.attached.lookup name
+def State.named? (s : State) (name : String) : Option Nat := s.attached.lookup name
 
 /-- the current array of the layer attached under `name` -/
 def State.namedArr? (s : State) (name : String) : Option Arr :=
@@ -152,7 +150,7 @@ def newLayer (s : State) (name : String) (dims : List Nat) (default : Int) : Sta
    .id s.nLayers)
 
 /-- `add_property_layer(layer)` -/
-def attach (s : State) (lid : LayerId) : State × Out :=
+def attach (s : State) (lid : Nat) : State × Out :=
   match s.layer? lid with
   | none => (s, .err .noLayer)
   | some l =>
@@ -180,7 +178,7 @@ def detach (s : State) (name : String) : State × Out :=
 /-! ### single-cell reads and writes through the two views -/
 
 /-- `layer.data[c] = v` / legacy `layer.set_cell(c, v)` -/
-def layerSet (s : State) (lid : LayerId) (c : Coord) (v : Int) : State × Out :=
+def layerSet (s : State) (lid : Nat) (c : Coord) (v : Int) : State × Out :=
   match s.layer? lid with
   | none => (s, .err .noLayer)
   | some l =>
@@ -188,7 +186,7 @@ def layerSet (s : State) (lid : LayerId) (c : Coord) (v : Int) : State × Out :=
     ({ s with heap := upd s.heap l.data ((s.heap l.data).set c v) }, .ok)
 
 /-- `layer.data[c]` -/
-def layerGet (s : State) (lid : LayerId) (c : Coord) : Out :=
+def layerGet (s : State) (lid : Nat) (c : Coord) : Out :=
   match s.layer? lid with
   | none => .err .noLayer
   | some l => if !inBounds l.dims c then .err .index else .val (s.heap l.data c)
@@ -243,7 +241,7 @@ def condHolds (cond : Option (Int → Bool)) (x : Int) : Bool :=
   | some p => p x
 
 /-- `set_cells(value, condition)`: `np.copyto(data, value[, where=cond(data)])` — in place -/
-def setCells (s : State) (lid : LayerId) (v : Int) (cond : Option (Int → Bool)) : State × Out :=
+def setCells (s : State) (lid : Nat) (v : Int) (cond : Option (Int → Bool)) : State × Out :=
   match s.layer? lid with
   | none => (s, .err .noLayer)
   | some l =>
@@ -252,7 +250,7 @@ def setCells (s : State) (lid : LayerId) (v : Int) (cond : Option (Int → Bool)
 
 /-- `modify_cells(operation, value, condition)`: `self.data = np.where(cond(data), op(data), data)` —
     a new array; the layer is re-pointed.  `f = none`: a ufunc without its second operand (`ValueError`). -/
-def modifyCells (s : State) (lid : LayerId) (f : Option (Int → Int)) (cond : Option (Int → Bool)) :
+def modifyCells (s : State) (lid : Nat) (f : Option (Int → Int)) (cond : Option (Int → Bool)) :
     State × Out :=
   match s.layer? lid with
   | none => (s, .err .noLayer)
@@ -266,7 +264,7 @@ def modifyCells (s : State) (lid : LayerId) (f : Option (Int → Int)) (cond : O
                 layers := upd s.layers lid { l with data := s.next } }, .ok)
 
 /-- legacy `modify_cell(position, operation, value)` — in place -/
-def modifyCell (s : State) (lid : LayerId) (c : Coord) (f : Option (Int → Int)) : State × Out :=
+def modifyCell (s : State) (lid : Nat) (c : Coord) (f : Option (Int → Int)) : State × Out :=
   if s.impl = .new then (s, .err .impl) else
   match s.layer? lid with
   | none => (s, .err .noLayer)
@@ -281,7 +279,7 @@ def modifyCell (s : State) (lid : LayerId) (c : Coord) (f : Option (Int → Int)
 /-! ### user-held array references -/
 
 /-- `h = layer.data` -/
-def grab (s : State) (h : Nat) (lid : LayerId) : State × Out :=
+def grab (s : State) (h : Nat) (lid : Nat) : State × Out :=
   match s.layer? lid with
   | none => (s, .err .noLayer)
   | some l => ({ s with handles := (h, (l.data, l.dims)) :: s.handles }, .ok)
@@ -305,7 +303,7 @@ def hdump (s : State) (h : Nat) : Out :=
 
 /-! ### whole-layer reads -/
 
-def dump (s : State) (lid : LayerId) : Out :=
+def dump (s : State) (lid : Nat) : Out :=
   match s.layer? lid with
   | none => .err .noLayer
   | some l => .arr ((cells l.dims).map (s.heap l.data))
@@ -317,7 +315,7 @@ def dumpName (s : State) (name : String) : Out :=
   | some lid => let l := s.layers lid; .arr ((cells l.dims).map (s.heap l.data))
 
 /-- `layer.select_cells(condition, return_list)`: both forms -/
-def layerSelect (s : State) (lid : LayerId) (p : Int → Bool) : Out :=
+def layerSelect (s : State) (lid : Nat) (p : Int → Bool) : Out :=
   match s.layer? lid with
   | none => .err .noLayer
   | some l =>
@@ -336,7 +334,7 @@ def extremum (hi : Bool) : List Int → Option Int
     | some y => some (if hi then (if x < y then y else x) else (if y < x then y else x))
 
 /-- `layer.aggregate(np.sum | np.max | np.min)` -/
-def aggregate (s : State) (lid : LayerId) (k : Agg) : Out :=
+def aggregate (s : State) (lid : Nat) (k : Agg) : Out :=
   match s.layer? lid with
   | none => .err .noLayer
   | some l =>
@@ -454,17 +452,23 @@ structure Query where
   conds : List (String × (Int → Bool))
   extremes : List (String × Option Bool)
 
-/-- the combined mask of `select_cells(conditions, extreme_values, masks, only_empty)` -/
-def selectMask (s : State) (q : Query) : Except Err (Coord → Bool) := do
-  let m0 := applyMasks q.masks (fun _ => true)
-  let m1 ←
-    if q.onlyEmpty then
-      match s.emptyArr? with
-      | none => .error .key
-      | some e => pure (fun c => m0 c && e c != 0)
-    else pure m0
-  let m2 ← applyConds s q.conds m1
-  applyExtremes s q.extremes m2
+/-- the `only_empty` stage: AND with the emptiness array (`KeyError` if the new grid lost its layer) -/
+def emptyStage (s : State) (onlyEmpty : Bool) (m : Coord → Bool) : Except Err (Coord → Bool) :=
+  if onlyEmpty then
+    match s.emptyArr? with
+    | none => .error .key
+    | some e => .ok (fun c => m c && e c != 0)
+  else .ok m
+
+/-- the combined mask of `select_cells(conditions, extreme_values, masks, only_empty)`:
+    masks, then only_empty, then conditions, then extreme values — in the order of the code -/
+def selectMask (s : State) (q : Query) : Except Err (Coord → Bool) :=
+  match emptyStage s q.onlyEmpty (applyMasks q.masks (fun _ => true)) with
+  | .error e => .error e
+  | .ok m1 =>
+    match applyConds s q.conds m1 with
+    | .error e => .error e
+    | .ok m2 => applyExtremes s q.extremes m2
 
 /-- both output forms: `list(zip(*np.where(mask)))` and the mask itself -/
 def selectCells (s : State) (q : Query) : Out :=
@@ -481,23 +485,23 @@ inductive MaskRef where
 inductive Op where
   | create (name : String) (default : Int)
   | newLayer (name : String) (dims : List Nat) (default : Int)
-  | attach (lid : LayerId)
+  | attach (lid : Nat)
   | detach (name : String)
-  | layerSet (lid : LayerId) (c : Coord) (v : Int)
-  | layerGet (lid : LayerId) (c : Coord)
+  | layerSet (lid : Nat) (c : Coord) (v : Int)
+  | layerGet (lid : Nat) (c : Coord)
   | cellSet (name : String) (c : Coord) (v : Int)
   | cellGet (name : String) (c : Coord)
-  | setCells (lid : LayerId) (v : Int) (cond : Option (Int → Bool))
-  | modifyCells (lid : LayerId) (f : Option (Int → Int)) (cond : Option (Int → Bool))
-  | modifyCell (lid : LayerId) (c : Coord) (f : Option (Int → Int))
-  | grab (h : Nat) (lid : LayerId)
+  | setCells (lid : Nat) (v : Int) (cond : Option (Int → Bool))
+  | modifyCells (lid : Nat) (f : Option (Int → Int)) (cond : Option (Int → Bool))
+  | modifyCell (lid : Nat) (c : Coord) (f : Option (Int → Int))
+  | grab (h : Nat) (lid : Nat)
   | hget (h : Nat) (c : Coord)
   | hset (h : Nat) (c : Coord) (v : Int)
   | hdump (h : Nat)
-  | dump (lid : LayerId)
+  | dump (lid : Nat)
   | dumpName (name : String)
-  | layerSelect (lid : LayerId) (p : Int → Bool)
-  | aggregate (lid : LayerId) (k : Agg)
+  | layerSelect (lid : Nat) (p : Int → Bool)
+  | aggregate (lid : Nat) (k : Agg)
   | place (a : Nat) (c : Coord)
   | move (a : Nat) (c : Coord)
   | remove (a : Nat)
